@@ -20,6 +20,7 @@ import (
 	"go/types"
 
 	"go.uber.org/nilaway/annotation"
+	"go.uber.org/nilaway/config"
 	"go.uber.org/nilaway/util/analysishelper"
 	"go.uber.org/nilaway/util/asthelper"
 	"go.uber.org/nilaway/util/typeshelper"
@@ -126,7 +127,11 @@ func (c *collectedFieldEffects) markResultWithConstructSite(fn *types.Func, resu
 // (under-report only).
 func computeBoundaryFieldEffects(pass *analysishelper.EnhancedPass) *collectedFieldEffects {
 	collected := newCollectedFieldEffects()
+	conf := pass.ResultOf[config.Analyzer].(*config.Config)
 	for _, file := range pass.Files {
+		if !conf.IsFileInScope(file) {
+			continue
+		}
 		for _, decl := range file.Decls {
 			fd, ok := decl.(*ast.FuncDecl)
 			if !ok || fd.Body == nil {
